@@ -1,5 +1,5 @@
 import Vore.Driver.SExp
-import Vore.Spec.Grammar
+import Vore.Spec.ParserGrammar
 /-!
 # Vore.Driver.OpsParse — model side of the parser correspondence (C08 / C15)
 
